@@ -700,6 +700,10 @@ func (en *evalEnv) call(x *ECall) ev {
 		return ev{App(SInt, "sl-id", arg(0).v.(*Term)), nil}
 	case "offof":
 		return ev{App(SInt, "sl-off", arg(0).v.(*Term)), nil}
+	case "feq":
+		// feq(a, b): the floating-point comparison a == b of the code (uninterpreted, the same symbol)
+		a, b := arg(0), arg(1)
+		return ev{e.floatCmp("feq", a.v.(*Term), b.v.(*Term)), nil}
 	case "fresh":
 		// allocated during this activation
 		a := arg(0)
